@@ -13,6 +13,12 @@ package main
 //        kind 1: value_date = date and issue_date = 2000-02-02; kinds 2/3 bill.Order, 4/5 bill.Delivery;
 //        optional further arguments: ( decoy rows ) and ( y m d ) = the date every OTHER date field of the
 //        document is set to (result then ends with the top-level fields set and the number of dates set)
+//   c12 foreign <mode> <kind> <CC> <cat> <rate key> ( y m d ) ( tags ) ( ext ) <HOST> <via> <where>
+//        the same combo resolved in ANOTHER country's regime: a document of regime HOST (supplier in HOST) whose
+//        combo belongs to CC, via 1: `country` = CC on the combo, via 2: the customer-rates tag and a customer
+//        whose tax_id country is CC; where 0: the combo is on the line, 1: on a document discount (the line has
+//        no taxes), 2: on a document charge. Result as for `invoice`, read from that place.
+//   c12 prepare ... <HOST>  (optional ninth argument) the combo has Country = CC, the calculator Country = HOST
 //   c12 date ( y m d ) ( y m d )      -> ( valid_a valid_b a.Before(b) )
 //   c12 checkorder ( table )          -> RateDef.ValidateWithContext order verdict
 // <mode> selects the model variant on the oracle side (1 = after the repair, 0 = as shipped); ignored here.
@@ -174,6 +180,13 @@ func init() {
 			}
 			p, s := c12SentinelPct, c12SentinelSur
 			combo := &tax.Combo{Category: cbc.Code(a[3].Str()), Rate: cbc.Key(a[4].Str()), Percent: &p, Surcharge: &s, Ext: c12Ext(a[7])}
+			if len(a) > 8 {
+				// foreign: the combo names its own country, the calculation is the host country's
+				combo.Country = r.Country
+				if r = tax.RegimeDefFor(l10n.Code(a[8].Str())); r == nil {
+					return []V{VErr("noregime")}
+				}
+			}
 			tc := &tax.TotalCalculator{
 				Currency: r.Currency,
 				Rounding: r.GetRoundingRule(),
@@ -205,7 +218,7 @@ func init() {
 			}
 			_ = json.Unmarshal([]byte(`{"percent":"66.6%","surcharge":"6.6%","ext":{"zz-history2":"y"}}`), combo)
 			return out
-		case "invoice":
+		case "invoice", "foreign":
 			return c12Invoice(a)
 		case "date":
 			x, y := c12Date(a[1]), c12Date(a[2])
@@ -262,8 +275,25 @@ func c12Invoice(a []V) []V {
 	if r == nil {
 		return []V{VErr("noregime")}
 	}
+	// foreign: the document belongs to regime `host`, the observed combo to cc
+	via, where := 0, 0
+	if a[0].Str() == "foreign" {
+		if len(a) < 12 {
+			return []V{VErr("args")}
+		}
+		hr := tax.RegimeDefFor(l10n.Code(a[9].Str()))
+		if hr == nil {
+			return []V{VErr("noregime")}
+		}
+		r = hr
+		via, where = int(a[10].Int()), int(a[11].Int())
+		a = a[:9]
+	}
 	d := c12Date(a[6])
 	comboJ := map[string]any{"cat": a[4].Str(), "rate": a[5].Str(), "percent": c12SentinelPct.String(), "surcharge": c12SentinelSur.String()}
+	if via == 1 {
+		comboJ["country"] = cc
+	}
 	if ext := c12Ext(a[8]); len(ext) > 0 {
 		comboJ["ext"] = ext
 	}
@@ -294,7 +324,18 @@ func c12Invoice(a []V) []V {
 		}
 		observedAt = len(lines)
 	}
-	lines = append(lines, mkLine(comboJ))
+	if where == 0 {
+		lines = append(lines, mkLine(comboJ))
+	} else {
+		// the only combo of the document sits on a document-level discount / charge
+		lines = append(lines, map[string]any{"quantity": "1", "item": map[string]any{"name": "Item", "price": "100.00"}})
+		row := []any{map[string]any{"amount": "1.00", "reason": "observed", "taxes": []any{comboJ}}}
+		if where == 1 {
+			discounts = row
+		} else {
+			charges = row
+		}
+	}
 	if len(a) > 9 && len(a[9].L) > 0 {
 		dc := map[string]any{"cat": a[4].Str(), "rate": a[5].Str(), "percent": c12SentinelPct.String(), "surcharge": c12SentinelSur.String()}
 		if ext := c12Ext(a[9].L[0]); len(ext) > 0 {
@@ -311,9 +352,16 @@ func c12Invoice(a []V) []V {
 	}
 	if len(discounts) > 0 {
 		doc["discounts"] = discounts
+	}
+	if len(charges) > 0 {
 		doc["charges"] = charges
 	}
-	if tags := c12Tags(a[7]); len(tags) > 0 {
+	tags := c12Tags(a[7])
+	if via == 2 {
+		tags = append(tags, tax.TagCustomerRates)
+		doc["customer"] = map[string]any{"name": "Customer", "tax_id": map[string]any{"country": cc}}
+	}
+	if len(tags) > 0 {
 		doc["$tags"] = tags
 	}
 	// kind: 0/1 invoice, 2/3 order, 4/5 delivery; even = dated by issue_date, odd = by value_date with an
@@ -367,20 +415,39 @@ func c12Invoice(a []V) []V {
 	if err != nil {
 		return []V{VErr("marshal")}
 	}
-	var back struct {
-		Lines []struct {
-			Taxes []struct {
-				Rate      string            `json:"rate"`
-				Percent   *string           `json:"percent"`
-				Surcharge *string           `json:"surcharge"`
-				Ext       map[string]string `json:"ext"`
-			} `json:"taxes"`
-		} `json:"lines"`
+	type c12Row struct {
+		Taxes []struct {
+			Rate      string            `json:"rate"`
+			Percent   *string           `json:"percent"`
+			Surcharge *string           `json:"surcharge"`
+			Ext       map[string]string `json:"ext"`
+		} `json:"taxes"`
 	}
-	if err := json.Unmarshal(outText, &back); err != nil || len(back.Lines) != len(lines) || len(back.Lines[observedAt].Taxes) != 1 {
+	var back struct {
+		Lines     []c12Row `json:"lines"`
+		Discounts []c12Row `json:"discounts"`
+		Charges   []c12Row `json:"charges"`
+	}
+	if err := json.Unmarshal(outText, &back); err != nil || len(back.Lines) != len(lines) {
 		return []V{VErr("readback")}
 	}
-	tx := back.Lines[observedAt].Taxes[0]
+	at := back.Lines[observedAt]
+	switch where {
+	case 1:
+		if len(back.Discounts) != 1 {
+			return []V{VErr("readback")}
+		}
+		at = back.Discounts[0]
+	case 2:
+		if len(back.Charges) != 1 {
+			return []V{VErr("readback")}
+		}
+		at = back.Charges[0]
+	}
+	if len(at.Taxes) != 1 {
+		return []V{VErr("readback")}
+	}
+	tx := at.Taxes[0]
 	pv, sv := VL(), VL()
 	if tx.Percent != nil {
 		x, ok := c12PctText(*tx.Percent)
